@@ -5,12 +5,12 @@ From V Require Import Common.Base C13.KwSpec C13.Token C13.LexSpec C13.LexProofs
 From Coq Require Import String.
 
 (* lexical side condition of render_lex: a prefix "++"/"--" is not directly followed by a
-   regular expression or a number (the leftmost token of its operand is an identifier or "(") *)
+   regular expression (the specification lexer chooses the division goal after "++"/"--") *)
 Fixpoint lead (e : expr) : bool :=
   match e with
   | EId _ => true
   | EDot t _ | EIndex t _ | ECall t _ => lead t
-  | ENum _ | ERe _ _ | ENew _ _ | ANil | ACons _ _ => false
+  | ERe _ _ | ANil | ACons _ _ => false
   | _ => true
   end.
 Fixpoint lexok (e : expr) : Prop :=
@@ -114,7 +114,7 @@ Lemma good_last_ends a : Good a -> ends_operand (last a IOpen) = true.
 Proof. intros (f & tl & E & _ & _ & He). subst a. rewrite (last_indep (f :: tl) IOpen f) by discriminate. exact He. Qed.
 
 Lemma G_pre a o : Good a -> op_kind o = KPre ->
-  (is_update_pre (IOp o) = true -> match a with IId _ :: _ | IOpen :: _ => True | _ => False end) -> Good (IOp o :: a).
+  (is_update_pre (IOp o) = true -> match a with IId _ :: _ | IOpen :: _ | INum _ :: _ | INew :: _ => True | _ => False end) -> Good (IOp o :: a).
 Proof.
   intros (f & tl & E & Hs & Hc & He) Hk Hl. subst a. exists (IOp o), (f :: tl). repeat split.
   - simpl. rewrite Hk. reflexivity.
@@ -154,7 +154,7 @@ Proof. intros (f & tl & E & _). subst. discriminate. Qed.
 Lemma hd_app_ne {A} (a b : list A) d : a <> [] -> hd d (a ++ b) = hd d a.
 Proof. destruct a; [congruence | reflexivity]. Qed.
 
-Definition simple_head (l : list item) : Prop := match l with IId _ :: _ | IOpen :: _ => True | _ => False end.
+Definition simple_head (l : list item) : Prop := match l with IId _ :: _ | IOpen :: _ | INum _ :: _ | INew :: _ => True | _ => False end.
 
 (* a prefix item that is not an operator of the table: the keyword "new" *)
 Lemma G_new a : Good a -> Good (INew :: a).
@@ -213,6 +213,7 @@ Proof.
   - rewrite print_items_split. destruct (wrapped false T (ECall f0 a0)); [exact I|]. rewrite body_call.
     simpl in Hl. specialize (IHf0 LPostfix (or_introl eq_refl) Hl).
     destruct (print_items false false LPostfix f0) as [|x l0]; [destruct IHf0|]. destruct x; try destruct IHf0; exact I.
+  - rewrite print_items_split. destruct (wrapped false T (ENew f0 a0)); exact I.
 Qed.
 
 Lemma ender_adj x : (x = IClose \/ x = IRBrack \/ x = IQuest \/ x = IColon) -> forall z, ends_operand z = true -> adj z x = true.
